@@ -12,6 +12,7 @@
 (*   start_new_episode            -> StartEpisode                              *)
 (*   stop_episode(n)              -> StopEpisode(n)                            *)
 (*   record_stat(key,v,ep?,step?) -> RecordStat(key, v, ep, step)              *)
+(*   define_experiment(env,algo,hp) -> DefineExperiment  (names the run only)  *)
 (*   define_checkpoint_frequency  -> DefineFrequency(key, I)                   *)
 (*   record_epoch(key,module,ep?,step?) -> RecordEpoch(key, ep, step)          *)
 (* An omitted optional argument is NONE (-1).  The module passed to record_epoch *)
@@ -163,6 +164,14 @@ RecordStat(key, v, ep, step) ==
   /\ Emit("RecordStat", [key |-> key, v |-> v, ep |-> ep, step |-> step],
           [ep |-> Dflt(ep, g.nEp), step |-> Dflt(step, g.nSteps)])
 
+(* define_experiment names the run and restarts the wall clock (both outside the *)
+(* abstraction); nothing that was recorded or counted may change                  *)
+DefineExperiment ==
+  /\ Can("DefineExperiment")
+  /\ UNCHANGED m
+  /\ g' = [g EXCEPT !.calls = @ + 1]
+  /\ Emit("DefineExperiment", <<>>, <<>>)
+
 DefineFrequency(key, I) ==
   /\ Can("DefineFrequency")
   /\ m' = [i \in Members |-> DefineFrequencyM(m[i], key, I)]
@@ -184,6 +193,7 @@ RecordEpoch(key, ep, step) == RecordEpochWith(key, ep, step, RecordEpochM)
 OptEp == EpVals \cup {NONE}
 Next ==
   \/ StartEpisode
+  \/ DefineExperiment
   \/ \E n \in StopVals : StopEpisode(n)
   \/ \E k \in Keys, v \in Values, ep \in OptEp, s \in StepVals \cup {NONE} : RecordStat(k, v, ep, s)
   \/ \E k \in Keys, I \in Intervals : DefineFrequency(k, I)
